@@ -29,9 +29,10 @@ type Simulator interface {
 
 	// RunCycle runs a full cyle of the living warriors, starting at s,warriorIndex.
 	//
-	// If s.cycleCount > s.maxCycles or there are no living warriors, no warrior
-	// will be run, s.cycleCount will not be incremented, and the return value will
-	// be 0. Otherwise s.cycleCount is incremented and
+	// If s.cycleCount >= s.maxCycles, there are no living warriors, or a battle
+	// of several warriors is already decided (fewer than two of them alive), no
+	// warrior will be run, s.cycleCount will not be incremented, and the return
+	// value will be 0. Otherwise s.cycleCount is incremented and
 	RunCycle() int
 	GetMem(a Address) Instruction
 	Reset()
@@ -180,6 +181,9 @@ func (s *reportSim) WarriorLivingCount() int {
 
 func (s *reportSim) RunCycle() int {
 	if s.cycleCount >= s.maxCycles || s.warriorLivingCount < 1 {
+		return 0
+	}
+	if s.warriorCount > 1 && s.warriorLivingCount < 2 {
 		return 0
 	}
 
